@@ -11,6 +11,7 @@ pub fn run(args: &[String]) {
     let cases = read_cases(&args[0]);
     let start: usize = args.get(1).map(|s| s.parse().unwrap()).unwrap_or(0);
     for case in cases.iter().skip(start) {
+        crate::wd::case_begin();
         println!("CASE {}", case.id);
         let parsed = std::panic::catch_unwind(|| kanata_parser::cfg::new_from_str(&case.cfg, case.files.clone()));
         let cfg = match parsed {
